@@ -72,6 +72,50 @@ func argApply(c argcase) string {
 		for x := 0; x < m.w; x++ {
 			m.b[a[0]*m.w+x] = row.Get(x)
 		}
+	case "SetRowTwins":
+		// two rows with the SAME size and bits but different histories (allocated at that size /
+		// grown bit by bit / grown in chunks / cut down from a longer array by Reverse-free means):
+		// SetRow is a function of the row's value, so the matrices must come out identical. The row
+		// is a[1] bits long (shorter than, equal to, or longer than the width).
+		n := a[1]
+		bit := func(x int) bool { return (x*5+a[2]*3+x/7)%3 != 0 }
+		rowA := gozxing.NewBitArray(n)
+		rowB := gozxing.NewEmptyBitArray()
+		rowC := gozxing.NewEmptyBitArray()
+		for x := 0; x < n; x++ {
+			if bit(x) {
+				rowA.Set(x)
+			}
+			rowB.AppendBit(bit(x))
+		}
+		for x := 0; x < n; {
+			k := 13
+			if n-x < k {
+				k = n - x
+			}
+			v := 0
+			for q := 0; q < k; q++ {
+				v <<= 1
+				if bit(x + q) {
+					v |= 1
+				}
+			}
+			rowC.AppendBits(v, k)
+			x += k
+		}
+		rB, _ := initMatrix(c.W, c.H, c.Init)
+		rC, _ := initMatrix(c.W, c.H, c.Init)
+		r.SetRow(a[0], rowA)
+		rB.SetRow(a[0], rowB)
+		rC.SetRow(a[0], rowC)
+		for y := 0; y < m.h; y++ {
+			for x := 0; x < m.w; x++ {
+				if r.Get(x, y) != rB.Get(x, y) || r.Get(x, y) != rC.Get(x, y) {
+					return fmt.Sprintf("SetRow(%d, row of %d bits): cell (%d,%d) is %v with a row allocated at its size, %v with the same row grown bit by bit, %v grown in 13-bit chunks", a[0], n, x, y, r.Get(x, y), rB.Get(x, y), rC.Get(x, y))
+				}
+			}
+		}
+		return ""
 	case "GetRow":
 		row := r.GetRow(a[0], nil)
 		if row.GetSize() != m.w {
@@ -144,7 +188,7 @@ func argOne(l *mc.Local, c argcase) {
 func runArgProducts() {
 	const h = 3
 	const maxInt = int(^uint(0) >> 1)
-	chk.Range("BitMatrix argument products: for every width 1..130 (height 3, contents empty and striped): SetRegion for EVERY (left,width) with left+width <= w x (top,height) in {(0,3),(1,1),(2,1),(0,2)}, Set/Unset/Flip at EVERY (x,y), SetRow/GetRow for every row pair, SetRow from scratch rows 1..w+3 bits LONGER than the width (all bits beyond the width set); out-of-range regions (negative origin, zero/negative size, one past the edge, origin + size wrapping around the int range, 2^32 look-alikes) refused without effect", 130,
+	chk.Range("BitMatrix argument products: for every width 1..130 (height 3, contents empty and striped): SetRegion for EVERY (left,width) with left+width <= w x (top,height) in {(0,3),(1,1),(2,1),(0,2)}, Set/Unset/Flip at EVERY (x,y), SetRow/GetRow for every row pair, SetRow from scratch rows 1..w+3 bits LONGER than the width (all bits beyond the width set); SetRow from equal rows with different histories (allocated / grown bit by bit / grown in chunks; shorter, equal, longer than the width) gives equal matrices; out-of-range regions (negative origin, zero/negative size, one past the edge, origin + size wrapping around the int range, 2^32 look-alikes) refused without effect", 130,
 		func(i int) string { return fmt.Sprint("w=", i+1) },
 		func(l *mc.Local, i int) {
 			w := i + 1
@@ -176,6 +220,11 @@ func runArgProducts() {
 					}
 					for _, extra := range []int{1, 6, 31, 32, 33, w + 3} {
 						argOne(l, argcase{"args", w, h, init, "SetRowLonger", []int{y, extra, y + init}})
+					}
+					for _, n := range []int{1, w / 2, w - 33, w - 32, w - 1, w, w + 1, w + 40} {
+						if n >= 1 {
+							argOne(l, argcase{"args", w, h, init, "SetRowTwins", []int{y, n, y + init}})
+						}
 					}
 					argOne(l, argcase{"args", w, h, init, "GetRow", []int{y}})
 				}
